@@ -6,6 +6,46 @@ from ..srules import escape
 from ..srules.core import SourceIndex
 from ._kcheck import FAMILY_ASSUMPTIONS
 
+def order_forced(ns, text, formats):
+    """F8 characterisation: does an operand's storage order force two levels of one reorderable dense
+    group of the output (a run of adjacent dense levels that is followed by a compressed level) to be
+    iterated against the output's storage order? (Then no loop order serves both without a workspace.)"""
+    a = ns.parse_assignment(text).unwrap()
+    fm = {n: ns.parse_format(f).unwrap() for n, f in formats}
+    out = fm[a.target.name]
+    dense = ns.Mode.dense
+    out_levels = [a.target.indexes[d] for d in out.ordering]
+    groups = []
+    run = []
+    for l, m in enumerate(out.modes):
+        if m == dense:
+            run.append(l)
+        else:
+            if len(run) >= 2:
+                groups.append(list(run))
+            run = []
+    # a trailing dense run is never followed by a compressed level: irrelevant
+
+    def occurrences(e):
+        if hasattr(e, "left"):
+            return occurrences(e.left) + occurrences(e.right)
+        return [e] if hasattr(e, "indexes") else []
+
+    for g in groups:
+        for x in range(len(g)):
+            for y in range(x + 1, len(g)):
+                ia, ib = out_levels[g[x]], out_levels[g[y]]
+                for t in occurrences(a.expression):
+                    f = fm[t.name]
+                    lv = {t.indexes[d]: l for l, d in enumerate(f.ordering)}
+                    if ia in lv and ib in lv and lv[ib] < lv[ia]:
+                        lo, hi = lv[ib], lv[ia]
+                        same_dense_run = all(f.modes[l] == dense for l in range(lo, hi + 1))
+                        if not same_dense_run:
+                            return True
+    return False
+
+
 RESERVED_SHAPES = ["y(int) = x(int)", "while(i) = x(i)", "a(i) = double(i)", "a(i) = malloc(i) + b(i)"]
 
 
@@ -23,6 +63,9 @@ def main(ctx):
         "implicit exceptions (KeyError, IndexError, ...) are only covered through the family-level crash datum",
         "termination of generation and acceptance by the real gcc / LLVM verifier are NOT decided",
     ]
+    from ..kir import load_tensora
+
+    ns = load_tensora(ctx.src)
     ix = SourceIndex(ctx.src)
     esc = escape.rule_escape(ctx, ix)
     escape.rule_tensor_method_escape(ctx, ix, esc)
@@ -47,6 +90,11 @@ def main(ctx):
         out_name = text.split("(")[0].strip()
         out_fmt = dict(formats).get(out_name, "")
         out_modes = "".join(ch for ch in out_fmt if ch in "ds")
+        try:
+            forced = order_forced(ns, text, formats)
+        except Exception:  # noqa: BLE001
+            forced = False
+        out_modes += " (an operand's storage order forces the output's dense group out of order)" if forced else " (no operand forces the order)"
         by_site.setdefault((exc, site, out_modes), []).append((text, formats))
     for (exc, site, out_modes), lst in sorted(by_site.items()):
         text, formats = lst[0]
